@@ -602,3 +602,53 @@ def rule_FX5(ctx, rep):
         rep.ok('FX5', rt, src[0], 'placeholders are created with exactly the declared flag')
     else:
         rep.bad('FX5', rt, rt.qualname, 'returnType does not hand the declared flag (rettype[1]) unchanged to the placeholder constructor', rt.node)
+
+
+# ---------------------------------------------------------------------------------- SC1
+def rule_SC1(ctx, rep, scope=None):
+    """representable scale factors: a public factor 2**E applied to a secure fixed-point value is converted with
+    round(2**E * 2**f); for E + f < 0 it becomes 0 and the product vanishes.  For every factor whose exponent is a linear
+    form in the number of fractional bits f and the bit length l, E + f >= 0 must hold for all types in the property's
+    quantifier (l >= 2f)."""
+    from .linform import Lin, to_lin
+    model = ctx.model
+    n = 0
+    for k, fn in sorted(model.funcs.items()):
+        if fn.module not in ('runtime',):
+            continue
+        if scope is not None and fn.qualname.split('.')[-1] not in scope:
+            continue
+        names = {a.arg for a in fn.node.args.args}
+        if not any(isinstance(x, ast.Attribute) and x.attr == 'frac_length' for x in ast.walk(fn.node)):
+            continue
+        for e in iter_nodes(fn.node):
+            if not (isinstance(e, ast.BinOp) and isinstance(e.op, ast.Pow) and const_int(e.left) == 2):
+                continue
+            # local names: f = <type>.frac_length, l = <type>.bit_length
+            env = {}
+            for nm in {x.id for x in ast.walk(e.right) if isinstance(x, ast.Name)}:
+                vals = [v for _, v, _ in definitions(fn.node, nm) if v is not None]
+                if vals and all(isinstance(v, ast.Attribute) and v.attr == 'frac_length' for v in vals):
+                    env[nm] = Lin.sym('F')
+                elif vals and all(isinstance(v, ast.Attribute) and v.attr == 'bit_length' for v in vals):
+                    env[nm] = Lin.sym('L')
+            E = to_lin(e.right, env, opaque=False)
+            if E is None or not (E.syms() <= {'F', 'L'}) or E.coef('L') >= 0:
+                continue
+            n += 1
+            # worst case under L >= 2F: L = 2F + d (d >= 0); E + F with L substituted
+            slack = E + Lin.sym('F')
+            cl, cf = slack.coef('L'), slack.coef('F')
+            # slack = cf*F + cl*L + c ; with L = 2F + d: (cf + 2 cl) F + cl d + c
+            worst_ok = cl >= 0 and (cf + 2 * cl) >= 0 and slack.c >= 0
+            if worst_ok:
+                rep.ok('SC1', fn, e, 'the factor is at least one unit 2^-f for every type with l >= 2f')
+            else:
+                dmax = None
+                if cl < 0 and (cf + 2 * cl) >= 0:
+                    dmax = int(slack.c // (-cl))
+                rep.bad('SC1', fn, e, f'the public factor 2**({norm(e.right)}) is converted to fixed point as round(2**({norm(e.right)} + f)), which is 0 for '
+                        f'types with l > 2f{" + " + str(dmax) if dmax else ""} (e.g. SecFxp(32, 8)): the normalised value -- and with it every quotient / '
+                        'reciprocal computed from it -- is 0 whatever the inputs')
+    if n < 2:
+        raise AnalysisError(f'SC1: only {n} bit-length dependent scale factors found (expected >= 2)')
